@@ -8,6 +8,8 @@ R20.index   inside that loop every subscript of a member that is written is exac
             every other member subscript is a read; (the only accumulator task, ExtendByTask, is accepted by name
             with its four side conditions checked)  =>  writes of different indices are disjoint, so the result does
             not depend on the partition of [0,len), on the order of the sub-ranges or on their running concurrently
+R20.index   (cont.) a local declared outside the loop is assigned in every iteration before it is read (no scratch state carried
+            from index i-1 to i, hence none across a sub-range boundary)
 R20.same    the generic VectorizedOperationN / VoidOperationN bodies apply Op::apply once per index to every
             accessor at [v] (masked in-place variant: the argument at the raw index of v)
 R20.len     at every dispatchTask(task, n) every array handed to the task is covered by a dominating
@@ -76,6 +78,36 @@ def rule_range_index(fx, out):
         for e in f.events:
             if e['k'] == 'fieldw' and e['obj'] == 'this': problems.append('member %s is modified (%s)' % (e['field'], e['how']))
             if e['k'] == 'vardecl' and 'static' in e.get('type', '').split(): problems.append('static local %s' % e['name'])
+        # ---- scratch state: a local declared outside the loop must be overwritten in every iteration before it is read
+        body_entry = None
+        for b in f.blocks.values():
+            if b.get('cond', '').replace(' ', '') == (l0[0].get('cond') or '').replace(' ', '') and len(b['succ']) == 2:
+                body_entry = b['succ'][0] if b.get('pol', True) else b['succ'][1]
+        lrefs = [e for e in f.events if e['k'] == 'lref']
+        if lrefs and body_entry is None:
+            problems.append('loop body not located in the CFG (locals declared outside the loop cannot be checked)')
+        for e in lrefs:
+            if e['kind'] == 'kill' or body_entry is None: continue
+            # loop-invariant locals (initialised before the loop, never modified inside it) carry no state
+            if not any(k['name'] == e['name'] and k['kind'] in ('kill', 'rmw', 'unknown') and f.dominates(body_entry, k['block']) for k in lrefs): continue
+            if not f.dominates(body_entry, e['block']): continue            # use outside the loop
+            kills = [k for k in lrefs if k['name'] == e['name'] and k['kind'] == 'kill' and f.dominates(body_entry, k['block'])
+                     and (f.dominates(k['block'], e['block'], k['idx'], e['idx']) if k['block'] != e['block'] else k['idx'] < e['idx'] or True and k['loc'] < e['loc'])]
+            # several kills on different branches jointly covering the use: accept when every path from the body entry to the use passes a kill
+            if not kills:
+                kb = set(k['block'] for k in lrefs if k['name'] == e['name'] and k['kind'] == 'kill' and f.dominates(body_entry, k['block']))
+                seenb = set(); st_ = [body_entry]; reach_unkilled = False
+                while st_:
+                    b_ = st_.pop()
+                    if b_ in seenb or b_ not in f.blocks: continue
+                    seenb.add(b_)
+                    if b_ == e['block']: reach_unkilled = True; break
+                    if b_ in kb: continue
+                    for s_ in f.blocks[b_]['succ']:
+                        if s_ is not None and s_ >= 0 and f.dominates(body_entry, s_): st_.append(s_)
+                if reach_unkilled or e['block'] in kb and False:
+                    problems.append('local %s (declared outside the loop) is %s at %s on a path of the iteration that has not assigned it: its value is carried over from the previous index, so the result depends on where the range is cut' % (e['name'], 'read' if e['kind'] == 'read' else 'updated in place', e['loc'].rsplit('/', 1)[-1]))
+            if e['kind'] == 'unknown': problems.append('use of local %s not classified (%s)' % (e['name'], e['how']))
         if cls in ACCUMULATORS:
             # side conditions of the accepted accumulator
             tid = pn[2]
